@@ -56,9 +56,36 @@ def make_filter(kind, cb):
     return F.aggregate(cb, seconds=float(kind[1]))
 
 
-async def _run(kinds, t0, calls):
+async def _run(kinds, t0, calls, how=None):
     from pyplumio import filters as F
     delivered = []
+    live = None
+    if how is not None:
+        # ONE parameter object lives through the whole history, changed the way the library changes it: a controller report
+        # replaces its values (update), a local set() writes the requested value in place and is then confirmed by a report
+        from harness import param_impl
+        from pyplumio.helpers.parameter import ParameterValues
+        first = calls[0][1] if calls else [3, 10, 0, 100, False]
+        live, *_ = param_impl.make_param(0, 0, [first[1], first[2], first[3]], True, 0)
+
+    async def next_value(i, v):
+        if live is None:
+            return to_py(v)
+        from pyplumio.helpers.parameter import ParameterValues
+        if how[i] == "set" and live.values.min_value <= v[1] <= live.values.max_value and v[1] != live.values.value:
+            task = asyncio.ensure_future(live.set(v[1], retries=1, timeout=1000.0))
+            for _ in range(4):
+                await asyncio.sleep(0)
+            live.update(ParameterValues(v[1], v[2], v[3]))
+            task.cancel()
+            try:
+                await task
+            except BaseException:  # noqa: BLE001
+                pass
+        else:
+            live.update(ParameterValues(v[1], v[2], v[3]))
+        live._pending_update = bool(v[4])
+        return live
 
     async def cb(value):
         delivered.append(value)
@@ -71,11 +98,11 @@ async def _run(kinds, t0, calls):
         for k in reversed(kinds):
             f = make_filter(k, f)
         outs = []
-        for t, v in calls:
+        for i, (t, v) in enumerate(calls):
             CLOCK[0] = float(t)
             n = len(delivered)
             try:
-                await f(to_py(v))
+                await f(await next_value(i, v))
             except Exception as e:  # noqa: BLE001
                 outs.append(["exception", type(e).__name__])
                 continue
@@ -93,7 +120,8 @@ class C20(Prop):
     id = "C20"
     prop_file = "Props/C20.v"
     rule = ("sequences of 0-25 calls with non-decreasing integer call times: numbers as exact multiples of 1/64 with repeats, sub-tolerance "
-            "drifts (steps of 1..6/64 versus 7/64), sign changes; strings; lists; parameter objects (value/min/max changes, pending flag); "
+            "drifts (steps of 1..6/64 versus 7/64), sign changes; strings; lists; parameter objects (value/min/max changes, pending flag), both a "
+            "fresh object per call and one live object changed by controller reports and by local set() + confirmation; "
             "every filter (on_change, debounce n=0..4, throttle, delta, aggregate) and every ordered pair of filters as a chain; time.monotonic "
             "patched to the history's clock.  Non-trivial = at least one value delivered and one suppressed; distinct by case content.")
     assumptions = ["float rounding on arbitrary doubles is modelled, not verified: inputs are dyadic rationals of bounded magnitude on which "
@@ -120,6 +148,7 @@ class C20(Prop):
         elif vt == "list":
             vals = [[2, sorted(rng.sample(range(6), rng.randrange(0, 4)))] for _ in range(n)]
         else:
+            # ("param": a fresh object per call; "live": one object changed in place, see _run)
             v, lo, hi = 10, 0, 100
             for _ in range(n):
                 mv = rng.choice(["same", "same", "value", "bounds", "pending"])
@@ -142,7 +171,7 @@ class C20(Prop):
             return [k, rng.randrange(0, 5)] if k == 1 else [k, rng.choice([1, 5, 10])] if k in (2, 4) else [k]
 
         for _ in range(n):
-            for vt in ("num", "num", "str", "list", "param"):
+            for vt in ("num", "num", "str", "list", "param", "live"):
                 numeric = vt == "num"
                 kinds = [rk(numeric)]
                 if rng.random() < 0.4:
@@ -158,11 +187,14 @@ class C20(Prop):
                     calls.append([t, v])
                 if vt == "list" and any(k[0] in (3, 4) for k in kinds):
                     continue
-                cases.append({"kind": "+".join(KINDS[k[0]] for k in kinds) + ":" + vt, "kinds": kinds, "t0": t0, "calls": calls})
+                case = {"kind": "+".join(KINDS[k[0]] for k in kinds) + ":" + vt, "kinds": kinds, "t0": t0, "calls": calls}
+                if vt == "live":
+                    case["how"] = [rng.choice(["update", "set"]) for _ in calls]
+                cases.append(case)
         return cases
 
     def run_impl(self, c):
-        return vloop.run(_run, c["kinds"], c["t0"], c["calls"])
+        return vloop.run(_run, c["kinds"], c["t0"], c["calls"], c.get("how"))
 
     def model_many(self, cases):
         one = [(i, c) for i, c in enumerate(cases) if len(c["kinds"]) == 1]
